@@ -6,6 +6,7 @@
 #pragma once
 #include "netsim.hpp"
 #include "sigmodel.hpp"
+#include "sigmut.hpp"
 extern "C" {
 #include <ksi/blocksigner.h>
 #include <ksi/policy.h>
@@ -14,28 +15,36 @@ namespace bs {
 using namespace vf; using namespace ref;
 struct BLeaf { Bytes hash; int level; bool meta; std::string cid; };
 struct BParams { int alg; bool masking; Bytes iv, prevLeaf; };
-struct BOut { bool ok = false; std::string err; std::vector<Bytes> sigs; std::vector<Bytes> prevAfter; Bytes prevAtStart; };
+struct BOut { bool ok = false; std::string err; std::vector<Bytes> sigs; std::vector<Bytes> prevAfter; Bytes prevAtStart; std::vector<bool> accepted; bool refusedChangedPrev = false; bool signFailed = false; int signRes = 0; bool requestSent = false; uint64_t requestLevel = 0; };
 static const std::string kLogin = "anon", kKey = "anon";
 static Server &server() { static Server s; return s; }
 static void attachAggregator() {
     Server &srv = server(); srv = Server(); Bytes keyB(kKey.begin(), kKey.end());
     srv.respond = [keyB](const Bytes &req, int) -> Bytes { ReqInfo ri = parseRequest(req); if (!ri.ok || !ri.isAggr || !ri.hasHash) return Bytes();
         uint8_t st = ri.hash.size() > 1 ? ri.hash[1] : 0; Chooser ch{[&](uint32_t n) { st = (uint8_t)(st * 37 + 11); return n ? st % n : 0u; }, [&]() { st = (uint8_t)(st * 37 + 11); return st; }};
-        BuildOpts o; o.fixedDoc = true; o.doc = ri.hash; o.wantRfc = 0; o.wantCal = 1; o.wantPub = 0; o.wantAuth = 1; o.minChains = 1; o.maxChains = 2; o.fixedTime = true; o.t = 1500000100; o.fixedPubTime = true; o.p = o.t + 50; o.calSalt = 9; o.firstCorr = (int)(ri.hasLevel ? ri.level : 0);
-        Sig s = buildConsistent(ch, o); Header h; h.login = "srv"; return sealV2(0x221, h, {aggrRespPayload(2, ri.reqId, true, 0, "", &s, ri.hasLevel ? ri.level : 0)}, keyB, 1); };
+        uint64_t lvl = ri.hasLevel ? ri.level : 0; Header h; h.login = "srv";
+        if (lvl >= 255) return sealV2(0x221, h, {aggrRespPayload(2, ri.reqId, true, 0x0104, "level too high", nullptr, 0)}, keyB, 1); // nothing can be aggregated above level 255
+        BuildOpts o; o.fixedDoc = true; o.doc = ri.hash; o.wantRfc = 0; o.wantCal = 1; o.wantPub = 0; o.wantAuth = 1; o.minChains = 1; o.maxChains = lvl >= 100 ? 1 : 2; o.fixedTime = true; o.t = 1500000100; o.fixedPubTime = true; o.p = o.t + 50; o.calSalt = 9; o.firstCorr = (int)lvl; o.allowMeta = lvl < 100; o.allowLegacy = lvl < 100;
+        Sig s = buildConsistent(ch, o);
+        if (lvl >= 100) { s.chains.resize(1); while (s.chains[0].links.size() > 1) s.chains[0].links.pop_back(); std::vector<bool> dirs; for (auto &l : s.chains[0].links) dirs.push_back(l.isLeft); uint64_t sh = 1; shapeBits(dirs, sh); s.chains[0].index.assign(1, sh); relink(s); }
+        return sealV2(0x221, h, {aggrRespPayload(2, ri.reqId, true, 0, "", &s, lvl)}, keyB, 1); };
     srv.attach();
 }
 static Bytes imprintOfHash(KSI_DataHash *h) { return imprintOf(h); }
 // feed `leaves` to the signer, record the previous-leaf value after each, close, sign and collect the signatures
 static void feed(KSI_CTX *ctx, KSI_BlockSigner *s, const std::vector<BLeaf> &leaves, bool sign, BOut &out) {
-    std::vector<KSI_BlockSignerHandle *> hs; out.ok = true;
+    std::vector<KSI_BlockSignerHandle *> hs; out.ok = true; size_t nreq0 = server().requests.size();
     for (auto &l : leaves) { KSI_DataHash *dh = nullptr; KSI_DataHash_fromImprint(ctx, l.hash.data(), l.hash.size(), &dh); KSI_MetaData *md = nullptr;
         if (l.meta) { KSI_MetaData_new(ctx, &md); KSI_Utf8String *u = nullptr; KSI_Utf8String_new(ctx, l.cid.c_str(), l.cid.size() + 1, &u); KSI_MetaData_setClientId(md, u); KSI_Utf8String_free(u); }
+        KSI_DataHash *p0 = nullptr; KSI_BlockSigner_getPrevLeaf(s, &p0); Bytes before = imprintOfHash(p0); KSI_DataHash_free(p0);
         KSI_BlockSignerHandle *h = nullptr; int res = KSI_BlockSigner_addLeaf(s, dh, l.level, md, &h); KSI_MetaData_free(md); KSI_DataHash_free(dh);
-        if (res != KSI_OK) { out.ok = false; out.err = "addLeaf res=" + num(res); break; } hs.push_back(h);
-        KSI_DataHash *pl = nullptr; KSI_BlockSigner_getPrevLeaf(s, &pl); out.prevAfter.push_back(imprintOfHash(pl)); KSI_DataHash_free(pl); }
-    if (out.ok && sign) { int res = KSI_BlockSigner_closeAndSign(s); if (res != KSI_OK) { out.ok = false; out.err = "closeAndSign res=" + num(res); }
-        for (size_t i = 0; out.ok && i < hs.size(); i++) { KSI_Signature *sg = nullptr; res = KSI_BlockSignerHandle_getSignature(hs[i], &sg); if (res != KSI_OK) { out.ok = false; out.err = "getSignature res=" + num(res); } else out.sigs.push_back(serializeSig(sg)); KSI_Signature_free(sg); } }
+        KSI_DataHash *pl = nullptr; KSI_BlockSigner_getPrevLeaf(s, &pl); Bytes after = imprintOfHash(pl); KSI_DataHash_free(pl);
+        if (res != KSI_OK) { out.accepted.push_back(false); hs.push_back(nullptr); out.prevAfter.push_back(after); if (after != before) out.refusedChangedPrev = true; KSI_BlockSignerHandle_free(h); continue; }
+        out.accepted.push_back(true); hs.push_back(h); out.prevAfter.push_back(after); }
+    bool any = false; for (bool a : out.accepted) if (a) any = true;
+    if (any && sign) { int res = KSI_BlockSigner_closeAndSign(s); out.requestSent = server().requests.size() > nreq0; if (out.requestSent) { ReqInfo ri = parseRequest(server().requests.back()); out.requestLevel = ri.hasLevel ? ri.level : 0; }
+        if (res != KSI_OK) { out.signFailed = true; out.signRes = res; }
+        for (size_t i = 0; !out.signFailed && out.ok && i < hs.size(); i++) { if (!hs[i]) { out.sigs.push_back(Bytes()); continue; } KSI_Signature *sg = nullptr; res = KSI_BlockSignerHandle_getSignature(hs[i], &sg); if (res != KSI_OK) { out.ok = false; out.err = "getSignature of leaf " + num((long long)i) + " res=" + num(res); } else out.sigs.push_back(serializeSig(sg)); KSI_Signature_free(sg); } }
     for (auto h : hs) KSI_BlockSignerHandle_free(h);
 }
 static KSI_BlockSigner *newSigner(KSI_CTX *ctx, const BParams &p) {
@@ -47,8 +56,8 @@ static Bytes genImp(Dec &d, int alg) { const AlgInfo *a = algInfo(alg); Bytes b;
 static void blockSignerCase(Dec &d, Case &c) {
     static const int algs[] = {1, 4, 5}; resetSim(); attachAggregator();
     BParams p; p.alg = algs[d.pick(3)]; p.masking = d.pick(4) != 0; if (p.masking) { p.iv = d.bytes(d.flag() ? 32 : 1 + d.pick(40)); p.prevLeaf = d.pick(3) == 0 ? Bytes(algInfo(p.alg)->digestLen + 1, 0) : genImp(d, p.alg); p.prevLeaf[0] = (uint8_t)p.alg; }
-    size_t n = 1 + d.pick(8); std::vector<BLeaf> leaves; size_t metas = 0;
-    for (size_t i = 0; i < n; i++) { BLeaf l; l.hash = genImp(d, algs[d.pick(3)]); l.level = d.pick(4) == 0 ? (int)d.pick(4) : 0; l.meta = d.pick(3) == 0; if (l.meta) { metas++; unsigned k = 1 + d.pick(8); for (unsigned j = 0; j < k; j++) l.cid.push_back((char)('a' + d.pick(26))); } leaves.push_back(l); }
+    size_t n = 1 + d.pick(8); std::vector<BLeaf> leaves; size_t metas = 0; bool high = false;
+    for (size_t i = 0; i < n; i++) { BLeaf l; l.hash = genImp(d, algs[d.pick(3)]); { static const int lv[] = {1, 2, 3, 250, 251, 252, 253, 254, 255, 100}; l.level = d.pick(4) == 0 ? lv[d.pick(10)] : 0; if (l.level >= 100) high = true; } l.meta = d.pick(3) == 0; if (l.meta) { metas++; unsigned k = 1 + d.pick(8); for (unsigned j = 0; j < k; j++) l.cid.push_back((char)('a' + d.pick(26))); } leaves.push_back(l); }
     size_t nj = 1 + d.pick(3); std::vector<BLeaf> junk; for (size_t i = 0; i < nj; i++) { BLeaf l; l.hash = genImp(d, algs[d.pick(3)]); l.level = 0; l.meta = d.flag(); l.cid = "junk"; junk.push_back(l); } bool junkSigned = d.flag();
     c.desc = "block-signer alg=" + num(p.alg) + (p.masking ? " masking(iv " + num((long long)p.iv.size()) + " bytes)" : " no-masking") + " leaves=" + num((long long)n) + " with-metadata=" + num((long long)metas) + " reset-after=" + num((long long)nj) + (junkSigned ? "+sign" : "");
     c.cls("block-signer"); if (p.masking) c.cls("block-signer:masking"); if (metas) c.cls("block-signer:metadata"); if (p.masking && metas) c.cls("block-signer:masking+metadata"); c.nontrivial = n >= 2 || p.masking || metas;
@@ -56,11 +65,17 @@ static void blockSignerCase(Dec &d, Case &c) {
     // ---- a newly created signer ----------------------------------------------------------------------------------------------
     BOut a; { KSI_BlockSigner *s = newSigner(ctx, p); if (!s) { VF_FAIL(c, "C16:block-signer:new-refused", "KSI_BlockSigner_new failed: " + c.desc); return; }
         KSI_DataHash *pl = nullptr; KSI_BlockSigner_getPrevLeaf(s, &pl); a.prevAtStart = imprintOfHash(pl); KSI_DataHash_free(pl); feed(ctx, s, leaves, true, a); KSI_BlockSigner_free(s); }
-    if (!a.ok) { VF_FAIL(c, "C16:block-signer:refused", "block signer refused valid leaves (" + a.err + "): " + c.desc); return; }
-    VF_CHECK(c, a.prevAtStart == (p.masking ? p.prevLeaf : Bytes()), "C16:block-signer:initial-prev-leaf", "previous-leaf value of a new signer is not the configured one: " + c.desc);
+    if (high) c.cls("block-signer:high-levels"); size_t nacc = 0; for (bool x : a.accepted) if (x) nacc++; if (nacc < n) c.cls("block-signer:leaf-refused");
+    VF_CHECK(c, !a.refusedChangedPrev, "C16:block-signer:refused-leaf-changed-prev-leaf", "a refused leaf changed the previous-leaf value of the signer: " + c.desc);
+    if (!high && nacc < n) { VF_FAIL(c, "C16:block-signer:refused", "block signer refused a low-level leaf: " + c.desc); return; }
+    if (c.fail) return; if (nacc == 0) { c.cls("block-signer:nothing-accepted"); return; }
+    if (a.signFailed) { // every accepted leaf must get a signature, unless the finished tree sits at level 255 (no aggregator can add a level)
+        if (a.requestSent && a.requestLevel >= 255) { c.cls("block-signer:root-at-level-255"); return; }
+        VF_FAIL(c, std::string("C16:block-signer:accepted-leaves-cannot-be-signed:") + (a.requestSent ? "request-refused" : "tree-not-closed"), "all leaves were accepted but closeAndSign failed res=" + num(a.signRes) + (a.requestSent ? " after a request at level " + num((long long)a.requestLevel) : " before any request was sent") + ": " + c.desc); return; }
+    if (!a.ok) { VF_FAIL(c, "C16:block-signer:no-signature-for-leaf", "an accepted leaf got no signature (" + a.err + "): " + c.desc); return; }
     // every signature: for that leaf, consistent, mask chain as specified
     Bytes prev = p.prevLeaf;
-    for (size_t i = 0; i < n && !c.fail; i++) { const BLeaf &l = leaves[i]; Sig sg; std::string err;
+    for (size_t i = 0; i < n && !c.fail; i++) { if (!a.accepted[i]) continue; const BLeaf &l = leaves[i]; Sig sg; std::string err;
         if (!decodeSig(a.sigs[i], sg, err)) { VF_FAIL(c, "C16:block-signer:signature-undecodable", "signature of leaf " + num((long long)i) + " does not decode (" + err + "): " + c.desc); break; }
         // chains are ordered from the document upwards
         const AggChain &first = sg.chains[0];
@@ -84,8 +99,12 @@ static void blockSignerCase(Dec &d, Case &c) {
         KSI_DataHash *pl = nullptr; KSI_BlockSigner_getPrevLeaf(s, &pl); b.prevAtStart = imprintOfHash(pl); KSI_DataHash_free(pl); feed(ctx, s, leaves, true, b); KSI_BlockSigner_free(s); }
     c.cls("block-signer:reset-compared");
     VF_CHECK(c, b.prevAtStart == a.prevAtStart, "C16:block-signer:reset:prev-leaf-not-restored", "after reset the previous-leaf value is not the initial one: " + c.desc);
-    if (!c.fail && !b.ok) VF_FAIL(c, "C16:block-signer:reset:refuses-leaves", "a reset signer refused the leaves a new signer accepted (" + b.err + "): " + c.desc);
+    if (!c.fail && (b.accepted != a.accepted || b.signFailed || !b.ok)) VF_FAIL(c, "C16:block-signer:reset:refuses-leaves", "a reset signer does not accept / sign the same leaves as a new signer (" + b.err + "): " + c.desc);
     if (!c.fail) VF_CHECK(c, b.prevAfter == a.prevAfter, "C16:block-signer:reset:prev-leaf-sequence-differs", "previous-leaf values of a reset signer differ from those of a new signer: " + c.desc);
     if (!c.fail) for (size_t i = 0; i < n; i++) if (a.sigs[i] != b.sigs[i]) { VF_FAIL(c, std::string("C16:block-signer:reset:signature-differs") + (leaves[i].meta && p.masking ? ":metadata+masking" : ""), "signature of leaf " + num((long long)i) + " from a reset signer differs from the one a new signer produces: " + c.desc); break; }
+    if (!c.fail && nacc < n) { std::vector<BLeaf> only; for (size_t i = 0; i < n; i++) if (a.accepted[i]) only.push_back(leaves[i]); BOut e; { KSI_BlockSigner *s3 = newSigner(ctx, p); feed(ctx, s3, only, true, e); KSI_BlockSigner_free(s3); }
+        c.cls("block-signer:refusal-inertness-compared"); size_t k = 0; bool same = e.ok && !e.signFailed && e.sigs.size() == only.size();
+        for (size_t i = 0; same && i < n; i++) if (a.accepted[i]) { if (a.sigs[i] != e.sigs[k]) same = false; k++; }
+        VF_CHECK(c, same, "C16:block-signer:refused-leaf-not-inert", "the signatures differ from those of a signer that never saw the refused leaves: " + c.desc); }
 }
 }
